@@ -20,7 +20,7 @@ ASSUMPTIONS = [
     "partition_by_column with an invalid mode and an EMPTY list is undetermined (nothing to partition); with a non-empty list it must raise ValueError",
     "columns 1..99 (as the property states); volumes compared by value",
 ]
-BUDGET = {"quick": (1, 1500), "thorough": (16, 20000)}
+BUDGET = {"quick": (4, 600), "thorough": (16, 20000)}
 ENUM_SPACE = {
     "quick": "all triple lists of length <= 2 over wells {A,B}x{01,02,03} (distinct volumes per slot) x {source,destination}; optimize_partition_by: 4 labware combinations x {auto,source,destination} + 8 invalid names",
     "thorough": "all triple lists of length <= 3 over wells {A,B}x{01,02,03} (distinct volumes per slot) x {source,destination}; optimize_partition_by: 4 labware combinations x {auto,source,destination} + 8 invalid names",
